@@ -259,8 +259,8 @@ package dagsync
 //@   ensures-local old(s.expSyncClosed) ==> result1 != nil && count("wg.add:expSyncWG") == 0 && count("call:handle") == 0
 //@   ensures-local !old(s.expSyncClosed) ==> count("wg.add:expSyncWG") == 1 && count("wg.done:expSyncWG") == 1
 // the sync stays registered (Close waits for it) until all of its work is done:
-//@   ensures-local before("wg.add:expSyncWG", "call:handle") && before("wg.add:expSyncWG", "call:GetHead") && before("wg.add:expSyncWG", "call:makeSyncer")
-//@   ensures-local notafter("call:handle", "wg.done:expSyncWG") && notafter("call:GetHead", "wg.done:expSyncWG") && notafter("call:makeSyncer", "wg.done:expSyncWG") && notafter("call:sendSyncFinishedEvent", "wg.done:expSyncWG") && notafter("call:updatePeerstore", "wg.done:expSyncWG") && notafter("call:getOrCreateHandler", "wg.done:expSyncWG")
+//@   ensures-local before("wg.add:expSyncWG", "call:handle") && before("wg.add:expSyncWG", "call:Syncer.GetHead") && before("wg.add:expSyncWG", "call:makeSyncer")
+//@   ensures-local notafter("call:handle", "wg.done:expSyncWG") && notafter("call:Syncer.GetHead", "wg.done:expSyncWG") && notafter("call:makeSyncer", "wg.done:expSyncWG") && notafter("call:sendSyncFinishedEvent", "wg.done:expSyncWG") && notafter("call:updatePeerstore", "wg.done:expSyncWG") && notafter("call:getOrCreateHandler", "wg.done:expSyncWG")
 //@   ensures-local result1 != nil ==> count("call:sendSyncFinishedEvent") == 0 && count("call:updatePeerstore") == 0 && str(result0.str) == str("")
 //@   ensures-local headFailed ==> result1 != nil && count("call:handle") == 0
 //@   ensures-local count("call:handle") <= 1 && count("call:sendSyncFinishedEvent") <= 1
